@@ -307,6 +307,11 @@ def _spectral_matrix(g, N, M, K, nonneg, maskfrac, junk):
     return s, w
 
 
+def _same_bits(a, b):
+    a, b = np.asarray(a), np.asarray(b)
+    return a.shape == b.shape and a.dtype == b.dtype and a.tobytes() == b.tobytes()
+
+
 def _lists(a):
     return np.asarray(a).tolist()
 
@@ -348,6 +353,9 @@ class C15(Check):
         'contract:gstepnn_keeps_components_nonnegative', 'contract:gstepnn_does_not_increase_badness',
         'contract:normbase_is_rms_of_components',
         'hmf_solves', 'hmf_gstep_smooth_updates', 'hmf_same_seed_pairs', 'hmf_default_negative_flux_runs',
+        'hmf_order_equal_seed_comparisons', 'hmf_order_resolves_of_one_object', 'hmf_order:build2_solve2', 'hmf_order:draw_between',
+        'hmf_order:solve_twice', 'hmf_order:interleave_other_seed', 'hmf_order:reseed_between', 'hmf_order:random_program',
+        'stale_chi2_rereads', 'stale_pcomp_rereads', 'stale_pca_recalls',
         'chi2_zero_weight_cases', 'chi2_discriminating', 'pcomp_wide_cases', 'pca_projections', 'pca_masked_columns',
     )
     REQUIRED_REACH = {'spec1d.HMF.astep': 1.0, 'spec1d.HMF.gstep': 1.0, 'spec1d.HMF.astepnn': 1.0, 'spec1d.HMF.gstepnn': 1.0,
@@ -401,6 +409,7 @@ class C15(Check):
             'hmf_exact': 100 if q else 1600,
             'hmf_smooth': 100 if q else 1600,
             'hmf_nonneg': 80 if q else 1200,
+            'hmf_order': 72 if q else 1200,
             'pca_solve': 240 if q else 3200,
         }
 
@@ -411,6 +420,8 @@ class C15(Check):
             return self._gen_chi2(cls, rng, g)
         if cls.startswith('pcomp'):
             return self._gen_pcomp(cls, rng, g)
+        if cls == 'hmf_order':
+            return self._gen_hmf_order(rng, g, i)
         if cls.startswith('hmf'):
             return self._gen_hmf(cls, rng, g)
         return self._gen_pca(cls, rng, g)
@@ -518,6 +529,72 @@ class C15(Check):
                 'seed': rng.randint(0, 2 ** 31 - 1), 'epsilon': eps, 'nonnegative': nonneg, 'masked_edges': edges,
                 'global_seeds': [rng.randint(0, 2 ** 31 - 1), rng.randint(0, 2 ** 31 - 1)]}
 
+    ORDER_PATTERNS = ('build2_solve2', 'draw_between', 'solve_twice', 'interleave_other_seed', 'reseed_between', 'random_program')
+
+    def _gen_hmf_order(self, rng, g, i):
+        """A *program* of constructions, solves and unrelated uses of numpy's global generator.
+
+        Every object is built on its own copy of the same data with the same parameters; objects named A, B, E share
+        ``seed``; C, D share ``other_seed``.  "A fixed seed gives identical results" must hold whatever happens between
+        constructing a seeded object and solving it, and for a repeated solve() of one object.
+        """
+        N = int(g.integers(10, 26))
+        M = int(g.integers(40, 81))
+        K = int(g.integers(2, 5)) if rng.random() < 0.85 else 1
+        nonneg = rng.random() < 0.25
+        s, w = _spectral_matrix(g, N, M, K, nonneg, rng.choice([0.0, 0.05, 0.1]), rng.choice(['keep', 'zero']))
+        edges = [0, 0]
+        if rng.random() < 0.25:
+            edges = [rng.randint(0, 2), rng.randint(1, 3)]
+            if edges[0]:
+                w[:, :edges[0]] = 0
+            w[:, M - edges[1]:] = 0
+        seed = rng.randint(0, 2 ** 31 - 1)
+        other = rng.randint(0, 2 ** 31 - 1)
+        while other == seed:
+            other = rng.randint(0, 2 ** 31 - 1)
+
+        def draw():
+            kind = rng.choice(['random', 'normal', 'randint', 'shuffle', 'seed'])
+            return ['draw', kind, rng.randint(1, 2 ** 31 - 1) if kind == 'seed' else rng.randint(1, 50)]
+        pattern = self.ORDER_PATTERNS[i % len(self.ORDER_PATTERNS)]
+        if pattern == 'build2_solve2':
+            ops = [['new', 'A', seed], ['new', 'B', seed], ['solve', 'A'], ['solve', 'B']]
+        elif pattern == 'draw_between':
+            ops = [['new', 'A', seed], ['draw', rng.choice(['random', 'normal', 'randint', 'shuffle']), rng.randint(1, 50)],
+                   ['solve', 'A'], ['new', 'B', seed], ['draw', 'random', rng.randint(51, 99)], ['solve', 'B']]
+        elif pattern == 'solve_twice':
+            ops = [['new', 'A', seed], ['solve', 'A'], ['solve', 'A']]
+            if rng.random() < 0.5:
+                ops += [draw(), ['solve', 'A']]
+        elif pattern == 'interleave_other_seed':
+            ops = [['new', 'A', seed], ['new', 'C', other], ['solve', 'C'], ['solve', 'A'], ['new', 'B', seed],
+                   ['solve', 'C'], ['solve', 'B'], ['new', 'D', other], ['solve', 'D']]
+        elif pattern == 'reseed_between':
+            ops = [['new', 'A', seed], ['draw', 'seed', rng.randint(1, 2 ** 31 - 1)], ['solve', 'A'],
+                   ['new', 'B', seed], ['solve', 'B']]
+        else:
+            names = {'A': seed, 'B': seed, 'E': seed, 'C': other, 'D': other}
+            built, ops, nsolve = [], [], 0
+            pending = list(names)
+            rng.shuffle(pending)
+            while nsolve < 6 or not any(o[0] == 'solve' and names[o[1]] == seed for o in ops):
+                r = rng.random()
+                if pending and (r < 0.35 or not built):
+                    n = pending.pop()
+                    built.append(n)
+                    ops.append(['new', n, names[n]])
+                elif r < 0.55:
+                    ops.append(draw())
+                else:
+                    ops.append(['solve', rng.choice(built)])
+                    nsolve += 1
+                if len(ops) > 30:
+                    break
+        return {'kind': 'hmf_order', 'spectra': _lists(s), 'invvar': _lists(w), 'K': K, 'n_iter': rng.randint(2, 4),
+                'epsilon': rng.choice([None, None, 0.0, 0.1, 10.0]), 'nonnegative': nonneg, 'masked_edges': edges,
+                'seed': seed, 'other_seed': other, 'pattern': pattern, 'ops': ops, 'global_seed': rng.randint(0, 2 ** 31 - 1)}
+
     def _gen_pca(self, cls, rng, g):
         q = self.tier == 'quick'
         nobj = int(g.integers(5, 25 if q else 41))
@@ -604,6 +681,19 @@ class C15(Check):
         verr = float(np.max(np.abs(var - np.diag(ref['covar'])))) if var.shape == (m,) else float('inf')
         out.expect(verr <= covtol, 'chi2-variance', 'var differs from diag(inverse(A^T W A)) by %.3g (tolerance %.3g)' % (verr, covtol),
                    got=var, want=np.diag(ref['covar']))
+        # state that could go stale across calls: a second object of the same system read in the opposite order, with an
+        # object of a *different* system constructed and read in between, and every attribute of the first object re-read
+        c2 = self.PM.computechi2(b.copy(), sq.copy(), A.copy())
+        decoy = self.PM.computechi2(np.roll(b, 1) * 1.5 + 1, sq[::-1].copy(), A[::-1].copy())
+        for name in case['order']:
+            getattr(decoy, name)
+        for name in reversed(case['order']):
+            v2 = getattr(c2, name)
+            v1 = getattr(c, name)
+            out.expect(_same_bits(v1, got[name]) and _same_bits(v2, got[name]), 'chi2-stale-state',
+                       '%s changed between reads / differs between two objects of the same system read in different orders' % name,
+                       first=got[name], reread=v1, second_object=v2)
+            out.count('stale_chi2_rereads')
         nz = int((sq == 0).sum())
         if nz:
             out.count('chi2_zero_weight_cases')
@@ -665,6 +755,17 @@ class C15(Check):
                     self._margin('pcomp_derived_err/tol', float(np.max(np.abs(de - want) / tol)))
                 out.expect(good, 'pcomp-derived', 'derived differs from data . coefficients')
                 out.count('pcomp_derived_checked')
+        p2 = self.PC.pcomp(x.copy(), standardize=std, covariance=cov)
+        decoy = self.PC.pcomp(x[::-1, ::-1] * 2 + 1, standardize=std, covariance=not cov)
+        for name in case['order']:
+            getattr(decoy, name)
+        for name in reversed(case['order']):
+            v2 = np.asarray(getattr(p2, name))
+            v1 = np.asarray(getattr(p, name))
+            out.expect(_same_bits(v1, got[name]) and _same_bits(v2, got[name]), 'pcomp-stale-state',
+                       '%s changed between reads / differs between two objects of the same data read in different orders' % name,
+                       first=got[name], reread=v1, second_object=v2)
+            out.count('stale_pcomp_rereads')
         if n <= m:
             out.count('pcomp_wide_cases')
         out.nontrivial = m >= 2
@@ -754,6 +855,78 @@ class C15(Check):
         out.info.update(N=N, M=M, K=K, n_iter=n_iter, epsilon=eps, nonnegative=nonneg, masked=nmask, updates=u1,
                         final_chi2=c1, chi2_per_dof=c1 / max(1, int((w0 > 0).sum()) - K * (N + M)))
 
+    # ---- HMF: same seed, different call orderings ------------------------------------------------------
+    def _run_hmf_order(self, case, out):
+        HMF = self.S1.HMF
+        s0 = np.array(case['spectra'], dtype='f8')
+        w0 = np.array(case['invvar'], dtype='f8')
+        N, M = s0.shape
+        K = case['K']
+        Mt = M - sum(case['masked_edges'])
+        nonneg_data = bool((s0 >= 0).all())
+        before = dict(MON.evals)
+        state = np.random.get_state()
+        objs = {}
+        first = {}          # seed -> (label, a, g) of the first solve with that seed
+        ncmp = 0
+        try:
+            np.random.seed(case['global_seed'])
+            for k, op in enumerate(case['ops']):
+                if op[0] == 'new':
+                    objs[op[1]] = (HMF(s0.copy(), w0.copy(), K=K, n_iter=case['n_iter'], seed=op[2],
+                                       nonnegative=case['nonnegative'], epsilon=case['epsilon']), op[2], [0])
+                elif op[0] == 'draw':
+                    kind, n = op[1], op[2]
+                    if kind == 'random':
+                        np.random.random(n)
+                    elif kind == 'normal':
+                        np.random.normal(size=n)
+                    elif kind == 'randint':
+                        np.random.randint(0, 1000, size=n)
+                    elif kind == 'shuffle':
+                        np.random.shuffle(np.arange(n + 1))
+                    else:
+                        np.random.seed(n)
+                else:
+                    h, seed, nsolved = objs[op[1]]
+                    nsolved[0] += 1
+                    label = 'op %d: solve #%d of object %s (seed %d)' % (k, nsolved[0], op[1], seed)
+                    MON.reset_run(nonneg_data=nonneg_data)
+                    try:
+                        res = h.solve()
+                    except MonitorViolation as e:
+                        clause, msg, detail = MON.failure or ('contract', str(e), {})
+                        out.fail(clause, '%s [%s; %s]' % (msg, e, label), **detail)
+                        return
+                    finally:
+                        self._flush_contract_counters(out, before)
+                        before = dict(MON.evals)
+                    out.count('hmf_solves')
+                    if nsolved[0] > 1:
+                        out.count('hmf_order_resolves_of_one_object')
+                    a, gg = np.array(res['acoeff']), np.array(res['flux'])
+                    ok = a.shape == (N, K) and gg.shape == (K, Mt) and np.isfinite(a).all() and np.isfinite(gg).all()
+                    out.expect(ok, 'hmf-result', '%s returned acoeff %r / flux %r, expected (%d,%d) / (%d,%d), finite' % (
+                        label, a.shape, gg.shape, N, K, K, Mt))
+                    if not ok:
+                        return
+                    if seed not in first:
+                        first[seed] = (label, a, gg)
+                        continue
+                    l0, a0, g0 = first[seed]
+                    ncmp += 1
+                    same = a.tobytes() == a0.tobytes() and gg.tobytes() == g0.tobytes()
+                    out.expect(same, 'same-seed', 'same data, same parameters, same seed, different results: [%s] vs [%s]: '
+                               'max |da| = %.3g, max |dg| = %.3g (pattern %s)' % (
+                                   l0, label, float(np.max(np.abs(a - a0))), float(np.max(np.abs(gg - g0))), case['pattern']),
+                               ops=case['ops'][:k + 1])
+        finally:
+            np.random.set_state(state)
+        out.count('hmf_order_equal_seed_comparisons', ncmp)
+        out.count('hmf_order:' + case['pattern'])
+        out.nontrivial = K >= 2 and ncmp >= 1
+        out.info.update(N=N, M=M, K=K, pattern=case['pattern'], ops=case['ops'], comparisons=ncmp)
+
     # ---- pca_solve --------------------------------------------------------------------------------
     def _run_pca(self, case, out):
         flux = np.array(case['flux'], dtype='f4')
@@ -795,6 +968,13 @@ class C15(Check):
                        'normal-equation residual %.3g' % worst)
         else:
             out.count('pca_projection_not_checkable(nreturn<nkeep)')
+        # same call again after a call on different data: nothing may survive from one call to the next
+        self.S1.pca_solve(flux[::-1, ::-1].copy(), ivar[::-1, ::-1].copy(), maxiter=0, niter=1, nkeep=nkeep)
+        r2 = self.S1.pca_solve(flux.copy(), ivar.copy(), maxiter=case['maxiter'], niter=case['niter'], nkeep=nkeep, nreturn=nreturn)
+        for k in sorted(r):
+            out.expect(k in r2 and _same_bits(r[k], r2[k]), 'pca-stale-state',
+                       'pca_solve called twice on the same input (another call in between) returned a different %r' % k)
+        out.count('stale_pca_recalls')
         out.nontrivial = bool((~good).any()) and nkeep >= 2
         out.info.update(nobj=nobj, npix=npix, nkeep=nkeep, nreturn=nreturn, niter=case['niter'], maxiter=case['maxiter'],
                         masked=int((~good).sum()), eigenval=ev)
